@@ -24,6 +24,8 @@ CRATE = "tower_resilience_hedge"
 
 
 def run(facts, tr, rep):
+    _n_ops = check_no_panicking_time_arith(facts, tr, rep, "C12.NO-PANIC-ARITH", facts.crates[CRATE].bodies)
+    rep.note("panicking Instant/Duration operators examined in the crate: %d" % _n_ops)
     # the hedging coroutine: the body with tokio::spawn sites reachable from Hedge's Service::call
     hb = None
     for sb in service_call_bodies(facts, crate=CRATE):
